@@ -249,48 +249,21 @@ let print_lit z =
     (Npos (Coq_xI (Coq_xO (Coq_xI (Coq_xI (Coq_xO
       Coq_xH)))))) :: (uint_bytes d)
 
+(** val split_sign : bytes -> bool * bytes **)
+
+let split_sign tok = match tok with
+| [] -> (false, tok)
+| b :: r ->
+  if N.eqb b (Npos (Coq_xI (Coq_xO (Coq_xI (Coq_xI (Coq_xO Coq_xH))))))
+  then (true, r)
+  else if N.eqb b (Npos (Coq_xI (Coq_xI (Coq_xO (Coq_xI (Coq_xO Coq_xH))))))
+       then (false, r)
+       else (false, tok)
+
 (** val parse_Z : bytes -> coq_Z option **)
 
 let parse_Z tok =
-  let sd =
-    match tok with
-    | [] -> (false, tok)
-    | b :: r ->
-      (match b with
-       | N0 -> (false, tok)
-       | Npos p ->
-         (match p with
-          | Coq_xI p0 ->
-            (match p0 with
-             | Coq_xI p1 ->
-               (match p1 with
-                | Coq_xO p2 ->
-                  (match p2 with
-                   | Coq_xI p3 ->
-                     (match p3 with
-                      | Coq_xO p4 ->
-                        (match p4 with
-                         | Coq_xH -> (false, r)
-                         | _ -> (false, tok))
-                      | _ -> (false, tok))
-                   | _ -> (false, tok))
-                | _ -> (false, tok))
-             | Coq_xO p1 ->
-               (match p1 with
-                | Coq_xI p2 ->
-                  (match p2 with
-                   | Coq_xI p3 ->
-                     (match p3 with
-                      | Coq_xO p4 ->
-                        (match p4 with
-                         | Coq_xH -> (true, r)
-                         | _ -> (false, tok))
-                      | _ -> (false, tok))
-                   | _ -> (false, tok))
-                | _ -> (false, tok))
-             | Coq_xH -> (false, tok))
-          | _ -> (false, tok)))
-  in
+  let sd = split_sign tok in
   (match snd sd with
    | [] -> None
    | _ :: _ ->
